@@ -215,7 +215,8 @@ class C13(runner.Check):
 			call = {"kind": "annotate" if (onehot_pool and r.chance(0.6)) else "tomtom",
 				"queries": qs, "plan": plan,
 				"n_nearest": None if r.chance(0.6) else r.randint(1, nT),
-				"use_n_jobs": r.chance(0.2)}
+				"use_n_jobs": r.chance(0.2),
+				"layout": r.wchoice(["c", "f", "strided", "torch"], [5, 1, 1, 1])}
 			if call["kind"] == "annotate" and call["n_nearest"] is None:
 				call["n_nearest"] = r.randint(1, nT)
 			calls.append(call)
@@ -227,6 +228,20 @@ class C13(runner.Check):
 		Ts = [numpy.array(t, dtype="float64") for t in case["targets"]]
 		pool = [numpy.array(q, dtype="float64") for q in case["pool"]]
 		return Ts, pool
+
+	@staticmethod
+	def _lay(a, layout):
+		"""The same values in another memory layout / container."""
+		import torch
+		if layout == "f":
+			return numpy.asfortranarray(a)
+		if layout == "strided":
+			big = numpy.zeros((a.shape[0] * 2, a.shape[1] * 3), dtype=a.dtype) + 0.123
+			big[::2, 1::3] = a
+			return big[::2, 1::3]
+		if layout == "torch":
+			return torch.from_numpy(numpy.ascontiguousarray(a))
+		return a
 
 	def _sim_call(self, plan, fn, stale_pool=None, max_steps=20000):
 		from engines.threads import ThreadSim
@@ -302,8 +317,11 @@ class C13(runner.Check):
 				fn = lambda: annotate_seqlets(X, seqlets, motifs, n_nearest=nn,
 					n_jobs=n_jobs, **kw)
 			else:
-				fn = lambda: self.tt.tomtom([pool[q] for q in qs], Ts, n_nearest=nn,
-					n_jobs=n_jobs, **kw)
+				lay = call.get("layout", "c")
+				Qarg = [self._lay(pool[q], lay) for q in qs]
+				Targ = [self._lay(t, lay) for t in Ts]
+				fn = lambda: self.tt.tomtom(Qarg, Targ, n_nearest=nn, n_jobs=n_jobs, **kw)
+				out.bump("layout." + lay)
 			try:
 				with numpy.errstate(all="ignore"):
 					sim, res = self._sim_call(plan, fn, stale_pool=stale)
@@ -320,6 +338,12 @@ class C13(runner.Check):
 			sim.retire_allocs()
 			out.steps += sim.steps
 			out.bump("calls")
+			if call["kind"] == "tomtom":
+				for a, b in list(zip(Qarg, [pool[q] for q in qs])) + list(zip(Targ, Ts)):
+					if not numpy.array_equal(numpy.asarray(a), b):
+						out.violate("input_modified", "call %d: tomtom modified one of its "
+							"input motifs" % ci, key="input_modified")
+						break
 			out.bump("calls.kind." + call["kind"])
 			out.bump("threads.K=%d" % K)
 			out.bump("dist." + plan["dist"]["kind"])
